@@ -91,8 +91,17 @@ def progSpec (progS : Sexp) (valsS : List Sexp) : Sexp :=
          (if Spec.intersectionsOfObjects p then [] else [Sexp.atom "IntersectionsOfObjects"])))]
   | _, _ => .list [.atom "spec-decode-error"]
 
+/-- conditional types, indexed access, `keyof` and `Exclude` are terms of the semantic requests (`sem`), not of the compiler model of
+whole programs: a rewrite request that uses them is not tied (the oracle on the two real compilations still applies) -/
+partial def mentionsSemOperator : Sexp → Bool
+  | .list (.atom "bi" :: .str "Exclude" :: _) => true
+  | .list (.atom h :: rest) => ["cond", "idx", "keyof"].contains h || rest.any mentionsSemOperator
+  | .list xs => xs.any mentionsSemOperator
+  | _ => false
+
 /-- `(rewrite id p files values p' files' script)`: model bits of both programs -/
 def rewriteOp (pS qS : Sexp) (valsS : List Sexp) : Sexp :=
+  if mentionsSemOperator pS || mentionsSemOperator qS then .atom "untied" else
   .list [.atom "pair", progOp pS valsS, progOp qS valsS]
 
 def rewriteHyps (pS qS : Sexp) (script : List Sexp) : Sexp :=
